@@ -94,6 +94,7 @@ class InitialCondition:
         self.th_fc_Adj = np.zeros(num_comp)
         self.th = np.zeros(num_comp)
         self.thini = np.zeros(num_comp)
+        self.thini_fc = np.zeros(num_comp, dtype=bool)  # compartments whose initial content was requested as field capacity
 
         self.time_step_counter = 0
 
